@@ -47,8 +47,10 @@ def build_scene(
     sim_time=None,
     volume_kwargs=None,
     recorder_modules=(),
+    apply_kwargs=None,
 ):
-    """bounds: str (all faces) or dict face->type.  Returns dict(objects, arrays, params, config, info, volume)."""
+    """bounds: str (all faces) or dict face->type.  Returns dict(objects, arrays, params, config, info, volume).
+    apply_kwargs: keyword arguments forwarded to apply_params (e.g. beta for projection transforms)."""
     grid = make_grid(shape, widths)
     if bounds is None or isinstance(bounds, str):
         btypes = {f: bounds for f in FACES}
@@ -100,7 +102,7 @@ def build_scene(
         config = config.aset("gradient_config", gradient_config)
     key = jax.random.PRNGKey(0)
     oc, arrays, params, config, info = fdtdx.place_objects(object_list=objs, config=config, constraints=cons, key=key)
-    arrays, oc, info2 = fdtdx.apply_params(arrays, oc, params, key)
+    arrays, oc, info2 = fdtdx.apply_params(arrays, oc, params, key, **(apply_kwargs or {}))
     return dict(objects=oc, arrays=arrays, params=params, config=config, info=info, volume=volume, key=key, dt=dt)
 
 
